@@ -10,9 +10,10 @@ Section RowCodec.
   Variable c : list str.
   Hypothesis c_len : length c = 96%nat.
 
-  Notation step := (row_step unit unit (cd_decode c) None).
-  Notation fold := (row_fold unit unit (cd_decode c) None).
+  Notation step := (row_step unit unit unit (ttx_dec c) None).
+  Notation fold := (row_fold unit unit unit (ttx_dec c) None).
   Notation app_item := (append_item unit unit None).
+  Notation mkR l li b := (mkRowst l li b tt).
 
   Ltac cmp v :=
     repeat match goal with
@@ -40,13 +41,13 @@ Section RowCodec.
   Qed.
 
   (* outside the box: a cell that is neither a spacing attribute nor a start box changes nothing *)
-  Lemma step_outside l li v : is_attr v = false -> v <> 11 -> step (mkRowst l li false) v = Ok (mkRowst l li false).
+  Lemma step_outside l li v : is_attr v = false -> v <> 11 -> step (mkR l li false) v = Ok (mkR l li false).
   Proof.
-    intros Ha H11. apply is_attr_false in Ha. unfold row_step. cbn [rs_started rs_l rs_li].
+    intros Ha H11. apply is_attr_false in Ha. unfold row_step. cbn [rs_started rs_l rs_li rs_d].
     cmp v; cbn [t_is_some orb andb negb]; reflexivity.
   Qed.
   Lemma fold_outside l li vs : forallb (fun v => negb (is_attr v) && negb (v =? 11)) vs = true ->
-    fold (mkRowst l li false) vs = Ok (mkRowst l li false).
+    fold (mkR l li false) vs = Ok (mkR l li false).
   Proof.
     induction vs as [|v r IH]; intros H; cbn [row_fold]; [reflexivity|].
     cbn [forallb] in H. apply andb_true_iff in H. destruct H as [Hv Hr]. apply andb_true_iff in Hv. destruct Hv as [H1 H2].
@@ -55,12 +56,12 @@ Section RowCodec.
   Qed.
 
   (* a start box *)
-  Lemma step_box l txt s b : step (mkRowst l (mkTitem txt s) b) 11 = Ok (mkRowst l (mkTitem txt s) true).
+  Lemma step_box l txt s b : step (mkR l (mkTitem txt s) b) 11 = Ok (mkR l (mkTitem txt s) true).
   Proof. unfold row_step. cbn. rewrite app_nil_r. reflexivity. Qed.
-  Lemma fold_boxes l txt s k : fold (mkRowst l (mkTitem txt s) true) (repeat 11 k) = Ok (mkRowst l (mkTitem txt s) true).
+  Lemma fold_boxes l txt s k : fold (mkR l (mkTitem txt s) true) (repeat 11 k) = Ok (mkR l (mkTitem txt s) true).
   Proof. induction k as [|k IH]; cbn [repeat row_fold]; [reflexivity|]. rewrite step_box. cbn [bind]. exact IH. Qed.
   (* an end box *)
-  Lemma step_endbox l li b : step (mkRowst l li b) 10 = Ok (mkRowst l li false).
+  Lemma step_endbox l li b : step (mkR l li b) 10 = Ok (mkR l li false).
   Proof. unfold row_step. cbn. reflexivity. Qed.
 
   (* a text cell inside the box *)
@@ -69,22 +70,22 @@ Section RowCodec.
     unfold is_text_cell. intros H. apply andb_true_iff in H. destruct H as [H H3]. apply andb_true_iff in H. destruct H as [H1 H2].
     apply negb_true_iff in H1. apply is_attr_false in H1. apply negb_true_iff in H2. apply N.eqb_neq in H2. apply N.ltb_lt in H3. lia.
   Qed.
-  Lemma decode_text v : v < 128 -> cd_decode c v = Ok (cell_text c v).
+  Lemma decode_text v : v < 128 -> ttx_dec c tt v = Ok (cell_text c v, tt).
   Proof.
-    intros H2. unfold cd_decode, cell_text. destruct (N.ltb_spec v 32); [reflexivity|].
+    intros H2. unfold ttx_dec, cd_decode, cell_text. destruct (N.ltb_spec v 32); [reflexivity|].
     destruct (nth_error c (N.to_nat (v - 32))) as [x|] eqn:E.
     - rewrite (nth_error_nth _ _ _ E). reflexivity.
     - apply nth_error_None in E. lia.
   Qed.
   Lemma step_text l txt s v : is_text_cell v = true ->
-    step (mkRowst l (mkTitem txt s) true) v = Ok (mkRowst l (mkTitem (txt ++ cell_text c v) s) true).
+    step (mkR l (mkTitem txt s) true) v = Ok (mkR l (mkTitem (txt ++ cell_text c v) s) true).
   Proof.
     intros H. apply is_text_cell_cases in H. destruct H as (H1 & H2 & H3 & H4). pose proof (decode_text v H4) as D.
-    unfold row_step. cbn [rs_started rs_l rs_li ti_text ti_sty].
+    unfold row_step. cbn [rs_started rs_l rs_li rs_d ti_text ti_sty].
     cmp v; cbn [t_is_some orb andb negb]; rewrite D; reflexivity.
   Qed.
   Lemma fold_text l s vs : forall txt, forallb is_text_cell vs = true ->
-    fold (mkRowst l (mkTitem txt s) true) vs = Ok (mkRowst l (mkTitem (txt ++ seg_text c vs) s) true).
+    fold (mkR l (mkTitem txt s) true) vs = Ok (mkR l (mkTitem (txt ++ seg_text c vs) s) true).
   Proof.
     induction vs as [|v r IH]; intros txt H; cbn [row_fold seg_text flat_map]; [rewrite app_nil_r; reflexivity|].
     cbn [forallb] in H. apply andb_true_iff in H. destruct H as [Hv Hr].
@@ -96,9 +97,9 @@ Section RowCodec.
 
   (* a spacing attribute inside the box while no text is pending: only the style changes *)
   Lemma step_attr_empty l s v (b : bool) : is_attr v = true ->
-    step (mkRowst l (mkTitem [] s) b) v = Ok (mkRowst l (mkTitem [] (apply_code s v)) b).
+    step (mkR l (mkTitem [] s) b) v = Ok (mkR l (mkTitem [] (apply_code s v)) b).
   Proof.
-    intros H. apply is_attr_true in H. unfold row_step, apply_code. cbn [rs_started rs_l rs_li ti_text ti_sty].
+    intros H. apply is_attr_true in H. unfold row_step, apply_code. cbn [rs_started rs_l rs_li rs_d ti_text ti_sty].
     destruct s as [col dh ds dw [ ]]. cbn [ts_color ts_dh ts_ds ts_dw ts_x].
     destruct H as [H|H].
     - cmp v. cbn [t_is_some orb andb negb fresh_ne opt_eqb t_opt_or].
@@ -112,7 +113,7 @@ Section RowCodec.
   Qed.
   (* in front of the box: attributes set the style, everything else but a start box is ignored *)
   Lemma fold_pre vs : forall s, forallb junk_cell vs = true ->
-    fold (mkRowst [] (mkTitem [] s) false) vs = Ok (mkRowst [] (mkTitem [] (fold_left apply_code (filter is_attr vs) s)) false).
+    fold (mkR [] (mkTitem [] s) false) vs = Ok (mkR [] (mkTitem [] (fold_left apply_code (filter is_attr vs) s)) false).
   Proof.
     induction vs as [|v r IH]; intros s H; cbn [row_fold filter fold_left]; [reflexivity|].
     cbn [forallb] in H. apply andb_true_iff in H. destruct H as [Hv Hr]. unfold junk_cell in Hv. apply negb_true_iff in Hv. apply N.eqb_neq in Hv.
@@ -121,7 +122,7 @@ Section RowCodec.
     - rewrite (step_outside [] (mkTitem [] s) v A Hv). cbn [bind]. apply IH. exact Hr.
   Qed.
   Lemma fold_attrs_empty l vs : forall s, forallb is_attr vs = true ->
-    fold (mkRowst l (mkTitem [] s) true) vs = Ok (mkRowst l (mkTitem [] (fold_left apply_code vs s)) true).
+    fold (mkR l (mkTitem [] s) true) vs = Ok (mkR l (mkTitem [] (fold_left apply_code vs s)) true).
   Proof.
     induction vs as [|v r IH]; intros s H; cbn [row_fold fold_left]; [reflexivity|].
     cbn [forallb] in H. apply andb_true_iff in H. destruct H as [Hv Hr].
@@ -130,9 +131,9 @@ Section RowCodec.
 
   (* an attribute that begins a new run: the pending text is flushed *)
   Lemma step_attr_effective l txt s v : is_attr v = true -> code_effective s v = true ->
-    step (mkRowst l (mkTitem txt s) true) v = Ok (mkRowst (app_item l (mkTitem txt s)) (mkTitem [] (apply_code s v)) true).
+    step (mkR l (mkTitem txt s) true) v = Ok (mkR (app_item l (mkTitem txt s)) (mkTitem [] (apply_code s v)) true).
   Proof.
-    intros H E. apply is_attr_true in H. unfold row_step, apply_code, code_effective in *. cbn [rs_started rs_l rs_li ti_text ti_sty].
+    intros H E. apply is_attr_true in H. unfold row_step, apply_code, code_effective in *. cbn [rs_started rs_l rs_li rs_d ti_text ti_sty].
     destruct s as [col dh ds dw [ ]]. cbn [ts_color ts_dh ts_ds ts_dw ts_x] in *.
     destruct H as [H|H].
     - revert E. cmp v. cbn [t_is_some orb andb negb fresh_ne opt_eqb t_opt_or]. intros E.
@@ -164,10 +165,10 @@ Section RowCodec.
     destruct (N.ltb_spec v 8); [|lia]. destruct s as [col dh ds dw [ ]]. cbn in *. subst. reflexivity.
   Qed.
   Lemma step_attr_ineffective l txt s v : is_attr v = true -> code_effective s v = false ->
-    step (mkRowst l (mkTitem txt s) true) v = Ok (mkRowst l (mkTitem txt s) true).
+    step (mkR l (mkTitem txt s) true) v = Ok (mkR l (mkTitem txt s) true).
   Proof.
     intros Ha He. destruct (ineffective_cases s v Ha He) as (Hv & Hc & Hh & Hs & Hw).
-    unfold row_step. cbn [rs_started rs_l rs_li ti_text ti_sty]. rewrite Hc, Hh, Hs, Hw.
+    unfold row_step. cbn [rs_started rs_l rs_li rs_d ti_text ti_sty]. rewrite Hc, Hh, Hs, Hw.
     cmp v. cbn [t_is_some orb andb negb fresh_ne opt_eqb]. rewrite N.eqb_refl. reflexivity.
   Qed.
 
@@ -175,10 +176,10 @@ Section RowCodec.
 
   (* a group of attributes *)
   Lemma fold_codes l cs : forall txt s, forallb is_attr cs = true ->
-    fold (mkRowst l (mkTitem txt s) true) cs =
+    fold (mkR l (mkTitem txt s) true) cs =
     Ok (if existsb (code_effective s) cs
-        then mkRowst (l ++ run_of txt s) (mkTitem [] (fold_left apply_code cs s)) true
-        else mkRowst l (mkTitem txt s) true).
+        then mkR (l ++ run_of txt s) (mkTitem [] (fold_left apply_code cs s)) true
+        else mkR l (mkTitem txt s) true).
   Proof.
     induction cs as [|v r IH]; intros txt s H; cbn [row_fold existsb fold_left]; [reflexivity|].
     cbn [forallb] in H. apply andb_true_iff in H. destruct H as [Hv Hr].
@@ -189,7 +190,7 @@ Section RowCodec.
 
   (* all groups: the pending run and the runs already appended *)
   Lemma fold_segs segs : forall l txt s, segs_ok segs = true ->
-    exists l' txt' s', fold (mkRowst l (mkTitem txt s) true) (flat_map seg_bytes segs) = Ok (mkRowst l' (mkTitem txt' s') true)
+    exists l' txt' s', fold (mkR l (mkTitem txt s) true) (flat_map seg_bytes segs) = Ok (mkR l' (mkTitem txt' s') true)
                        /\ l' ++ run_of txt' s' = l ++ seg_runs c s txt segs.
   Proof.
     induction segs as [|g r IH]; intros l txt s Hok.
